@@ -56,7 +56,7 @@ VARIABLES req,        \* the abstract request (constant along a behaviour)
           handled,    \* a request handler was invoked
           validated,  \* the document passed schema validation
           changed,    \* MDIB or subscription table differ from the state before the request
-          flags       \* things the reference never does: [escaped, spin, unbounded, expanded, fetched]
+          flags       \* things the reference never does: [escaped, spin, unbounded, expanded, fetched, again]
 
 vars == <<req, stage, pos, out, handled, validated, changed, flags>>
 
@@ -242,7 +242,9 @@ Requests == CASE Part = "trace" -> {}      \* PipelineTrace: the requests come f
 
 ---------------------------------------------------------------------------
 (* the state machine *)
-NoFlags == [escaped |-> FALSE, spin |-> FALSE, unbounded |-> FALSE, expanded |-> FALSE, fetched |-> FALSE]
+\* again: a second response on the connection although the client sent ONE correctly framed request (its body, or a
+\* part of it, was taken for a further request)
+NoFlags == [escaped |-> FALSE, spin |-> FALSE, unbounded |-> FALSE, expanded |-> FALSE, fetched |-> FALSE, again |-> FALSE]
 NoOut == [kind |-> "none", status |-> "none"]
 
 Init == /\ req \in Requests
@@ -340,6 +342,7 @@ NoSpin == ~flags.spin
 BoundedRead == ~flags.unbounded
 NoExpansion == ~flags.expanded
 NoFetch == ~flags.fetched
+OneResponse == ~flags.again
 RejectIsNoop == (Done /\ out.kind # "proper") => ~changed
 ValidatedFirst == (handled /\ req.method = "POST") => validated
 HandledOnlyIfAdmissible == handled => \A i \in 1..6 : Verdict(StageSeq[i], req) # "reject"
